@@ -29,8 +29,9 @@ ACTS2 = [(("DELETE", "SET NULL"),), (("UPDATE", "NO ACTION"),), (("DELETE", "SET
 
 
 # CHECK expressions: comparisons, IN lists, function calls, AND / BETWEEN ... and four forms the expression grammar does not reach
-CK_EXPRS = ["d > 0", "d IN (1, 2, 3)", "length(b) > 0", "d > 0 AND d < 10", "d BETWEEN 1 AND 5", "b IN ('x', 'y')", "d <> 5", "rs.f(d) > 0", "d % 2 = 0"]
-CK_BEYOND = ["(d > 0)", "d >= 0 OR b IS NULL", "lower(b) = b", "b LIKE 'a%'"]
+CK_EXPRS = ["d > 0", "d IN (1, 2, 3)", "length(b) > 0", "d > 0 AND d < 10", "d BETWEEN 1 AND 5", "b IN ('x', 'y')", "d <> 5", "rs.f(d) > 0", "d % 2 = 0",
+            "d > 0 AND b IN ('x', 'y')", "d > 0 AND d < 10 AND d IN (1, 2)"]
+CK_BEYOND = ["(d > 0)", "d >= 0 OR b IS NULL", "lower(b) = b", "b LIKE 'a%'", "b IN ('x', 'y') AND d > 0", "d > 0 AND lower(b) = 'x'"]
 
 
 def stmt_text(st):
@@ -76,6 +77,7 @@ def items():
         out.append(["ick", c, c + " IN (1, 2)"])
         out.append(["ick", c, "abs(%s) > 1" % c])
         out.append(["ick", c, "%s > 1 AND %s < 9" % (c, c)])
+        out.append(["ick", c, "%s > 1 AND %s IN (2, 3)" % (c, c)])
     for c in ("b", "d"):
         for rc in ("x", None):
             for sch in (None, "rs"):
